@@ -20,17 +20,18 @@ import (
 	pb "github.com/marekgalovic/anndb/protobuf"
 	"github.com/marekgalovic/anndb/storage"
 	"github.com/marekgalovic/anndb/storage/raft"
+	uuid "github.com/satori/go.uuid"
 )
 
 func init() { runners["C18"] = runC18 }
 
 type c18Op struct {
-	Kind string `json:"kind"` // node-add node-remove create delete
-	Node uint64 `json:"node,omitempty"`
-	Ds   int    `json:"ds,omitempty"`    // index into the case's dataset pool
-	Self bool   `json:"self,omitempty"`  // create: first replica of the partitions is this node (it may then modify them)
-	Repl uint32 `json:"repl,omitempty"`  // create: replication factor (under-replicated if > replicas)
-	Parts int   `json:"parts,omitempty"` // create: partitions
+	Kind  string `json:"kind"` // node-add node-remove create delete
+	Node  uint64 `json:"node,omitempty"`
+	Ds    int    `json:"ds,omitempty"`    // index into the case's dataset pool
+	Self  bool   `json:"self,omitempty"`  // create: first replica of the partitions is this node (it may then modify them)
+	Repl  uint32 `json:"repl,omitempty"`  // create: replication factor (under-replicated if > replicas)
+	Parts int    `json:"parts,omitempty"` // create: partitions
 }
 type c18Case struct {
 	Backlog []c18Op `json:"backlog"`
@@ -52,10 +53,13 @@ type tailGroup struct {
 	n                        int
 }
 
-func (g *tailGroup) RegisterProcessFn(f raft.ProcessFn) error         { g.process = f; return nil }
-func (g *tailGroup) RegisterProcessSnapshotFn(f raft.ProcessFn) error { g.processSnapshot = f; return nil }
-func (g *tailGroup) RegisterSnapshotFn(f raft.SnapshotFn) error       { g.snapshot = f; return nil }
-func (g *tailGroup) LeaderId() uint64                                 { return 1 }
+func (g *tailGroup) RegisterProcessFn(f raft.ProcessFn) error { g.process = f; return nil }
+func (g *tailGroup) RegisterProcessSnapshotFn(f raft.ProcessFn) error {
+	g.processSnapshot = f
+	return nil
+}
+func (g *tailGroup) RegisterSnapshotFn(f raft.SnapshotFn) error { g.snapshot = f; return nil }
+func (g *tailGroup) LeaderId() uint64                           { return 1 }
 func (g *tailGroup) Propose(ctx context.Context, data []byte) error {
 	g.mu.Lock()
 	g.tail = append(g.tail, append([]byte(nil), data...))
@@ -109,8 +113,20 @@ func runC18Case(c *c18Case, st *stats, idx int) {
 		bs, _ := proto.Marshal(&pb.DatasetManagerChange{Type: t, NotificationId: nid.Bytes(), Data: data})
 		return bs
 	}
+	nodeOps, selfParts := 0, 0
+	for _, op := range c.Backlog {
+		switch {
+		case op.Kind == "node-add" || op.Kind == "node-remove":
+			nodeOps++
+		case op.Kind == "create" && op.Self && op.Repl >= 2:
+			selfParts += op.Parts
+		}
+	}
+	budget := 8*time.Second + time.Duration(nodeOps*selfParts)*5500*time.Millisecond
 	start := time.Now()
 	applied := make(chan int, 1)
+	probeOk := make(chan bool, 1)
+	probeSkipped := make(chan bool, 1)
 	progress := make(chan int, 1024)
 	go func() { // the zero group's apply loop
 		for i, op := range c.Backlog {
@@ -143,12 +159,52 @@ func runC18Case(c *c18Case, st *stats, idx int) {
 				time.Sleep(20 * time.Millisecond)
 			}
 		}
+		// keeps serving: a dataset created now, with its partition on this node, gets its raft group loaded by the
+		// allocator loop (which therefore has not stopped taking work).  Every membership change makes the loop try a
+		// configuration change on each partition it may modify; on a group that has lost its quorum to members that
+		// do not exist here such a call ends only after 5 x 1 s, so the probe is run where that bound stays small
+		if budget > 25*time.Second {
+			probeOk <- true
+			probeSkipped <- true
+			applied <- len(c.Backlog)
+			return
+		}
+		probeSkipped <- false
+		probe := &pb.Dataset{Id: uuidFrom(r).Bytes(), Dimension: 2, Space: pb.Space_Euclidean, PartitionCount: 1, ReplicationFactor: 1,
+			Partitions: []*pb.Partition{{Id: uuidFrom(r).Bytes(), NodeIds: []uint64{1}}}}
+		pdata, _ := proto.Marshal(probe)
+		g.process(entry(pb.DatasetManagerChangeType_DatasetManagerCreateDataset, pdata))
+		loaded := false
+		for deadline := time.Now().Add(budget); !loaded && time.Now().Before(deadline); {
+			if d := g.pop(); d != nil {
+				g.process(d)
+			}
+			if ds, err := dm.Get(uuid.FromBytesOrNil(probe.Id)); err == nil && ds.VerifRaft(0) != nil {
+				loaded = true
+			}
+			time.Sleep(5 * time.Millisecond)
+		}
+		probeOk <- loaded
 		applied <- len(c.Backlog)
 	}()
 	limit := 25 * time.Second
+	if budget <= 25*time.Second {
+		limit += budget
+	}
 	select {
 	case n := <-applied:
 		c.Applied = n
+		if <-probeSkipped {
+			st.count("serving-probe:skipped")
+		} else {
+			st.count("serving-probe:run")
+		}
+		if ok := <-probeOk; !ok {
+			buf := make([]byte, 1<<20)
+			buf = buf[:runtime.Stack(buf, true)]
+			c.Where = c18Diagnose(string(buf))
+			st.ImplFailures = append(st.ImplFailures, implFailure{Case: idx, What: "after the backlog was applied the node no longer serves: a dataset created now does not get its partition loaded within the time every pending configuration change may take: " + c.Where, Key: "allocator-stopped-serving", Input: *c})
+		}
 	case <-time.After(limit):
 		c.Wedged = true
 		last := 0
@@ -222,6 +278,13 @@ func c18Scripts(r *rng, n int) []c18Case {
 	add("datasets first, then members join and leave",
 		c18Op{Kind: "create", Ds: 0, Self: true, Repl: 3, Parts: 2}, c18Op{Kind: "node-add", Node: 2}, c18Op{Kind: "create", Ds: 1, Self: true, Repl: 3, Parts: 2},
 		c18Op{Kind: "node-add", Node: 3}, c18Op{Kind: "node-remove", Node: 2}, c18Op{Kind: "create", Ds: 2, Self: false, Repl: 1, Parts: 3}, c18Op{Kind: "delete", Ds: 0})
+	// a dataset is deleted while the allocator is still proposing replica changes for its partitions: the proposals
+	// that arrive after the deletion must still be answered, or the allocator loop waits for ever
+	add("a member joins, the dataset it was being added to is deleted at once",
+		c18Op{Kind: "create", Ds: 0, Self: true, Repl: 2, Parts: 3}, c18Op{Kind: "node-add", Node: 2}, c18Op{Kind: "delete", Ds: 0})
+	add("two datasets, one deleted between the proposals of a join",
+		c18Op{Kind: "create", Ds: 0, Self: true, Repl: 2, Parts: 2}, c18Op{Kind: "create", Ds: 1, Self: true, Repl: 2, Parts: 1},
+		c18Op{Kind: "node-add", Node: 2}, c18Op{Kind: "delete", Ds: 0}, c18Op{Kind: "delete", Ds: 1})
 	var burst []c18Op
 	burst = append(burst, c18Op{Kind: "create", Ds: 0, Self: true, Repl: 2, Parts: 1})
 	for i := uint64(2); i <= 41; i++ {
@@ -298,7 +361,7 @@ func runC18(a *args) error {
 		quietRounds = 120 // long enough for the partition groups to elect, so that every proposal of the allocator is made
 	}
 	r := newRng(a.seed)
-	st := newStats("backlogs of membership notifications (Conn.AddNode / RemoveNode as the zero group applies them) and catalogue entries (create / delete through DatasetManager.process) fed by one goroutine to a real Conn + Allocator (loop running) + DatasetManager; the allocator's own proposals are queued behind the backlog; scripted restarts (members then datasets, datasets then churn, a burst of 40 joins around creations) plus generated backlogs of 4..17 entries; watchdog 25 s; non-trivial = backlog mixes both kinds and the allocator made >= 1 proposal; distinct by hash of the backlog")
+	st := newStats("backlogs of membership notifications (Conn.AddNode / RemoveNode as the zero group applies them) and catalogue entries (create / delete through DatasetManager.process) fed by one goroutine to a real Conn + Allocator (loop running) + DatasetManager; the allocator's own proposals are queued behind the backlog; scripted restarts (members then datasets, datasets then churn, a burst of 40 joins around creations) plus generated backlogs of 4..17 entries; watchdog 25 s; afterwards a probe dataset must get its partition loaded by the allocator loop (run where pending configuration changes are bounded by 25 s); non-trivial = backlog mixes both kinds and the allocator made >= 1 proposal; distinct by hash of the backlog")
 	var cases []c18Case
 	if a.replay != "" {
 		var c c18Case
